@@ -2,6 +2,9 @@ module verif/harness
 
 go 1.13
 
-require github.com/asticode/go-astisub v0.0.0
+require (
+	github.com/asticode/go-astisub v0.0.0
+	golang.org/x/net v0.0.0-20200904194848-62affa334b73
+)
 
 replace github.com/asticode/go-astisub => /repo
